@@ -11,6 +11,8 @@ from univers.version_range import VersionRange
 
 MODULES = ["Univers.Props.C13", "Univers.Props.Schemes"]
 LEVEL = "proof"
+# function-level tie for the text layer (translator + agreement theorems): see runner step 3a
+TIE_THEOREMS = {"Univers.Text.GenTextThm": ["Univers.Gen.Text.py_remove_spaces_eq", "Univers.Gen.Text.vc_split_eq", "Univers.Gen.Text.vc_from_string_eq", "Univers.Gen.Text.vc_str_eq", "Univers.Gen.Text.vc_to_dict_eq"]}
 RULE = ("(1) vers text layer of the real code against the Lean model (decorated spellings included); (2) per scheme, seeded "
         "well-formed ranges: permutations of the constraint list and of the text, whitespace insertion, letter case of 'vers:' "
         "and of the scheme, stray leading/trailing '|', explicit '=' — all variants must give equal ranges with byte-identical "
@@ -115,6 +117,38 @@ def correspondence(ctx):
                              {"scheme": name, "variant": bad[0], "canonical": canon, "clause": bad[1],
                               "python": "from univers.version_range import VersionRange as R; print(str(R.from_string(%r)))" % bad[0]},
                              spec="identical canonical text")
+        # one version written twice, in two spellings: the two orders of the text (and of the collection) give equal
+        # ranges with the same text, also with simplify (which keeps one of the two: always the same one)
+        twins = [cl for cl in bench.pool.classes if len(cl) >= 2][:8]
+        for cl in twins:
+            (ta, va), (tb, vb) = cl[0], cl[1]
+            if any((not t.isascii()) or any(ch in t for ch in "|\\'\" \t\n") or t[0] in "<>=!*vV" for t in (ta, tb)):
+                continue
+            other = bench.pool.classes[0][0] if bench.pool.classes[0] is not cl else bench.pool.classes[-1][0]
+            for cmp_ in ("", ">=", "!="):
+                t1 = "vers:%s/%s%s|%s%s" % (rcls.scheme, cmp_, ta, cmp_, tb)
+                t2 = "vers:%s/%s%s|%s%s" % (rcls.scheme, cmp_, tb, cmp_, ta)
+                ctx.count(stream + ":twins", key=t1, nontrivial=True)
+                why = None
+                try:
+                    for kw in ({}, {"simplify": True}):
+                        r1, r2 = VersionRange.from_string(t1, **kw), VersionRange.from_string(t2, **kw)
+                        if str(r1) != str(r2) or not (r1 == r2):
+                            why = "%r and %r (flags %r) give %r and %r" % (t1, t2, kw, str(r1), str(r2))
+                            break
+                    if why is None:
+                        c1 = [VersionConstraint(comparator=cmp_ or "=", version=va), VersionConstraint(comparator=cmp_ or "=", version=vb)]
+                        q1, q2 = rcls(constraints=c1), rcls(constraints=tuple(reversed(c1)))
+                        if str(q1) != str(q2) or not (q1 == q2) or hash(q1) != hash(q2):
+                            why = "the collection in its two orders prints %r and %r" % (str(q1), str(q2))
+                except Exception:  # noqa: BLE001 — a text the parser refuses in both orders is not this clause's business
+                    continue
+                if why:
+                    ctx.disagree(stream + ":twins", t1, why, "identical canonical text", True,
+                                 {"scheme": name, "texts": [t1, t2], "clause": "one version in two spellings: the order of the constraints changes the canonical text: " + why,
+                                  "python": "from univers.version_range import VersionRange as R; print(str(R.from_string(%r)), str(R.from_string(%r)))" % (t1, t2)},
+                                 spec="identical canonical text")
+                    break
         # the match-all range
         canon = "vers:%s/*" % rcls.scheme
         ctx.count(stream, key=canon, nontrivial=False)
